@@ -253,6 +253,23 @@ def compare_transforms(ctx, payload, meta, transforms, case, ref=None, what='gen
             elif d['exc'][0] not in ('ELFCompressionError', 'AssertionError') and not (tr['t'] == 'zdebug' and d['exc'][0] == 'ELFError'):
                 ctx.fail('reject|%s|size-mismatch|raises=%s' % (tr['t'], d['exc'][0]), 'rejected with %r' % (d['exc'],), case)
             ctx.count('reject.size.' + tr['t'])
+            # asked again on the same file object (a caller that reports the error and goes on): what was rejected stays rejected
+            d2 = safe_dump(ef)
+            if 'exc' in d and 'exc' not in d2:
+                ctx.fail('reject|%s|size-mismatch-accepted-when-asked-again' % tr['t'], 'the first get_dwarf_info()/dump was rejected with %r, the second on the same ELFFile was not' % (d['exc'],), case)
+            if tr['t'] == 'gabi':
+                # ... and on the same section objects
+                for sec in list(ef.iter_sections()):
+                    if not sec.compressed:
+                        continue
+                    outcomes = []
+                    for _ in range(3):
+                        try:
+                            outcomes.append(('ok', len(sec.data())))
+                        except Exception as e:  # noqa
+                            outcomes.append(('exc', type(e).__name__))
+                    if outcomes[0][0] == 'exc' and any(o[0] == 'ok' for o in outcomes[1:]):
+                        ctx.fail('reject|gabi|size-mismatch-accepted-when-asked-again|same-section-object', 'section %s: data() three times on one object: %r' % (sec.name, outcomes), case)
             continue
         if tr['t'] == 'link' and not tr.get('crc_ok', True):
             d = safe_dump(ef)
